@@ -387,7 +387,7 @@ fn apply_ops_nrpn(sc: &mut ParameterNumberMessageScanner, ops: &[Op]) {
 }
 
 fn check_invert(r: &PnReport, prior: &[Op], carrier: u8) -> CheckResult {
-    let mut sc = api(ParameterNumberMessageScanner::new);
+    let mut sc = if (r.number as usize + prior.len()) % 2 == 0 { api(ParameterNumberMessageScanner::new) } else { api(ParameterNumberMessageScanner::default) };
     apply_ops_nrpn(&mut sc, prior);
     let snapshot = sc;
     // (a) the encoding as the property describes it (reference arithmetic)
@@ -500,7 +500,7 @@ fn report_from(v: &Value) -> Option<PnReport> {
 }
 
 fn report_strategy() -> impl Strategy<Value = PnReport> {
-    (0usize..8, 0u8..16, prop_oneof![0u16..16384, Just(0u16), Just(16383u16), Just(127u16), Just(128u16)], 0u16..16384).prop_map(|(c, ch, number, v)| {
+    (0usize..8, prop_oneof![4 => 0u8..16, 1 => Just(0u8), 1 => Just(15u8)], prop_oneof![6 => 0u16..16384, 2 => 0u16..8, 1 => Just(16383u16), 1 => Just(127u16), 1 => Just(128u16)], 0u16..16384).prop_map(|(c, ch, number, v)| {
         let value = v % (value_max(c) + 1);
         ctor_report(c, ch, number, value)
     })
@@ -555,7 +555,7 @@ pub fn run_c10(ctx: &Ctx) -> Report {
     {
         let mut sub = Sub::new(
             "invert_after_pool_state",
-            "every reachable per-channel state of the value-abstracted fixpoint (number bytes / data LSB over values {0,1,127}, both kinds; channels 0, 9, 15) x 8 constructors x numbers {0,1,127,128,129,16383} x boundary values: the encoding fed after the shortest history reaching the state",
+            "every reachable per-channel state of the value-abstracted fixpoint (number bytes / data LSB over values {0,1,127}, both kinds; channels 0, 9, 15) x 8 constructors x numbers {0,1,6,127,128,129,16383} x boundary values: the encoding fed after the shortest history reaching the state",
             "non-trivial = non-initial prior state",
             true,
         );
@@ -573,7 +573,7 @@ pub fn run_c10(ctx: &Ctx) -> Report {
             let paths: Vec<Vec<Op>> = (0..out.states.len()).map(|i| out.path_to(i).iter().map(|k| alphabet[*k]).collect()).collect();
             let mut grid: Vec<PnReport> = Vec::new();
             for c in 0..8usize {
-                for number in [0u16, 1, 127, 128, 129, 16383] {
+                for number in [0u16, 1, 6, 127, 128, 129, 16383] {
                     for value in [0u16, 1, value_max(c) / 2 + 1, value_max(c)] {
                         grid.push(ctor_report(c, ch, number, value));
                     }
@@ -703,7 +703,7 @@ pub fn run_c10(ctx: &Ctx) -> Report {
             cases,
             || {
                 (
-                    (0u8..16, any::<bool>(), prop_oneof![0u16..16384, Just(0u16), Just(16383u16)], any::<bool>(), any::<bool>()),
+                    (prop_oneof![4 => 0u8..16, 1 => Just(0u8), 1 => Just(15u8)], any::<bool>(), prop_oneof![4 => 0u16..16384, 2 => 0u16..8, 1 => Just(16383u16), 1 => (0u16..128).prop_map(|x| x << 7)], any::<bool>(), any::<bool>()),
                     prop::collection::vec((0u8..3, 0u16..16384), 1..=max_items),
                     prop::collection::vec((0u8..(max_items as u8), any::<u8>(), any::<u8>(), any::<u8>()), 0..4),
                     any::<u64>(),
@@ -802,7 +802,8 @@ pub struct NrpnStats {
 }
 
 pub fn check_nrpn_history(ops: &[Op], stats: &mut NrpnStats) -> Result<(), Fail> {
-    let mut sc = api(ParameterNumberMessageScanner::new);
+    // "since creation": created through new() or through Default (chosen by the history itself)
+    let mut sc = if hash64(&ops) & 1 == 0 { api(ParameterNumberMessageScanner::new) } else { api(ParameterNumberMessageScanner::default) };
     let mut rf = RefNrpn::default();
     let mut any_contrib = false;
     let mut kinds: [(Option<bool>, Option<bool>); 16] = [(None, None); 16];
@@ -978,8 +979,11 @@ fn bfs_step(st: &BState, op: &Op) -> Result<Option<BState>, Fail> {
 pub fn run_c11(ctx: &Ctx) -> Report {
     let mut subs = Vec::new();
     let mut configs: Vec<(String, Vec<u8>, Vec<u8>)> = vec![
-        ("bfs_one_channel".into(), vec![3], vec![0, 1, 127]),
+        ("bfs_one_channel".into(), vec![3], vec![0, 1, 6, 127]),
+        ("bfs_one_channel_manager_0".into(), vec![0], vec![0, 6, 127]),
         ("bfs_two_channels".into(), vec![0, 15], vec![0, 1, 127]),
+        ("bfs_two_channels_0_1_spec_values".into(), vec![0, 1], vec![0, 6]),
+        ("bfs_two_channels_15_13_spec_values".into(), vec![15, 13], vec![2, 6]),
     ];
     if ctx.reduced {
         configs.truncate(1);
@@ -993,7 +997,8 @@ pub fn run_c11(ctx: &Ctx) -> Report {
         let t0 = std::time::Instant::now();
         let out = bfs(
             ctx,
-            BState { sc: ParameterNumberMessageScanner::new(), rf: RefNrpn::default() },
+            // every other exploration starts from a Default-constructed scanner
+            BState { sc: if name.len() % 2 == 0 { ParameterNumberMessageScanner::default() } else { ParameterNumberMessageScanner::new() }, rf: RefNrpn::default() },
             alphabet.len(),
             |s, i| bfs_step(s, &alphabet[i]),
             |s| key_of(&s.sc, &[hash64(&s.rf)]),
